@@ -6,7 +6,14 @@
 #ifndef VERIF_PRELUDE_H
 #define VERIF_PRELUDE_H
 #include <stddef.h>
+/* a stub TU that replaces a static inline helper of a header renames the header's copy */
+#ifdef STUB_luint_mul_uint
+#define luint_mul_uint luint_mul_uint__hdr
+#endif
 #include "chibi/eval.h"
+#ifdef STUB_luint_mul_uint
+#undef luint_mul_uint
+#endif
 
 #undef sexp_field
 #undef sexp_pred_field
